@@ -456,8 +456,20 @@ func c19Oracle(in c19In) probe.Outcome {
 			if in.Bool1 {
 				size = 4
 			}
-			c.BuildDeletePayload(in.U8a, size, uint16(len(in.U32s)), append([]uint32(nil), in.U32s...))
-			want = &model.Payload{Kind: model.KDelete, Delete: &model.Delete{Protocol: in.U8a, SPISize: size, Count: uint16(len(in.U32s)), SPIs: in.U32s}}
+			count := uint16(len(in.U32s))
+			// the count argument is an argument of its own: when it disagrees with the list the payload still holds what it
+			// was given (and cannot be encoded) - it is not cut or padded to fit
+			if in.Bool1 && len(in.U32s) > 0 && in.U8c%4 >= 2 {
+				if in.U8c%4 == 2 {
+					count += 1 + uint16(in.U8b%3)
+				} else {
+					count -= 1 + uint16(in.U8b)%count
+				}
+				mayError = true
+				labels = append(labels, "delete:count!=len(spis)")
+			}
+			c.BuildDeletePayload(in.U8a, size, count, append([]uint32(nil), in.U32s...))
+			want = &model.Payload{Kind: model.KDelete, Delete: &model.Delete{Protocol: in.U8a, SPISize: size, Count: count, SPIs: in.U32s}}
 		case "EAP":
 			returned = c.BuildEAP(eap.EapCode(in.U8a), in.U8b)
 			want = &model.Payload{Kind: model.KEAP, EAP: &model.EAP{Code: in.U8a, Identifier: in.U8b, Kind: model.ENone}}
@@ -570,7 +582,131 @@ func (in c19In) U32a2id() uint16 { return uint16(in.U32a) }
 
 var c19Build = probe.Define("C19", "builders", c19Gen, c19Oracle)
 
+// A container variable is reused for the next message / proposal after its contents were handed on: whoever took the list
+// over (a payload, a message, another variable) keeps exactly what was handed over when the variable is Reset() and refilled.
+type c19ResetIn struct {
+	Container string      `json:"container"` // payloads | attributes | selectors | proposals | transforms
+	N         int         `json:"elements_before_reset"`
+	B         model.Bytes `json:"data"`
+	U         uint16      `json:"u16"`
+}
+
+var c19Containers = []string{"payloads", "attributes", "selectors", "proposals", "transforms"}
+
+var c19Reset = probe.Define("C19", "reset-then-build", func(t *rapid.T) c19ResetIn {
+	return c19ResetIn{Container: rapid.SampledFrom(c19Containers).Draw(t, "container"), N: rapid.IntRange(1, 5).Draw(t, "n"),
+		B: gen.BytesLen(t, "data", 1, 40, 1, 4, 16), U: rapid.Uint16().Draw(t, "u16") & 0x7fff}
+}, func(in c19ResetIn) probe.Outcome {
+	addr4 := func(i int) []byte { return []byte{10, 0, byte(i), 1} }
+	cp := func(b []byte) []byte { return append([]byte(nil), b...) }
+	var fail string
+	check := func(lenAfterReset, lenAfterBuild int, takenSame bool) {
+		switch {
+		case lenAfterReset != 0:
+			fail = fmt.Sprintf("Reset() left %d elements in the container", lenAfterReset)
+		case lenAfterBuild != 1:
+			fail = fmt.Sprintf("the builder appended %d elements to the reset container, want exactly 1", lenAfterBuild)
+		case !takenSame:
+			fail = "building into a container variable after Reset() overwrote the list that had been handed on before the Reset()"
+		}
+	}
+	err := probe.Try(func() error {
+		switch in.Container {
+		case "payloads":
+			var c message.IKEPayloadContainer
+			for i := 0; i < in.N; i++ {
+				c.BuildNonce(append([]byte{byte(i)}, in.B...))
+			}
+			taken := c // e.g. message.NewMessage(..., c) or msg.Payloads = c
+			first := append([]message.IKEPayload(nil), taken...)
+			c.Reset()
+			l0 := len(c)
+			c.BuildNonce(cp(in.B))
+			same := len(taken) == in.N
+			for i := range first {
+				n, ok := taken[i].(*message.Nonce)
+				same = same && taken[i] == first[i] && ok && bytes.Equal(n.NonceData, append([]byte{byte(i)}, in.B...))
+			}
+			check(l0, len(c), same)
+		case "attributes":
+			var c message.ConfigurationAttributeContainer
+			for i := 0; i < in.N; i++ {
+				c.BuildConfigurationAttribute(uint16(i+1), cp(in.B))
+			}
+			taken := c
+			first := append([]*message.IndividualConfigurationAttribute(nil), taken...)
+			c.Reset()
+			l0 := len(c)
+			c.BuildConfigurationAttribute(in.U, cp(in.B))
+			same := len(taken) == in.N
+			for i := range first {
+				same = same && taken[i] == first[i] && taken[i].Type == uint16(i+1) && bytes.Equal(taken[i].Value, in.B)
+			}
+			check(l0, len(c), same)
+		case "selectors":
+			var c message.IndividualTrafficSelectorContainer
+			for i := 0; i < in.N; i++ {
+				c.BuildIndividualTrafficSelector(7, 6, uint16(i), 99, addr4(i), addr4(i+100))
+			}
+			taken := c
+			first := append([]*message.IndividualTrafficSelector(nil), taken...)
+			c.Reset()
+			l0 := len(c)
+			c.BuildIndividualTrafficSelector(7, 17, in.U, in.U, addr4(200), addr4(201))
+			same := len(taken) == in.N
+			for i := range first {
+				same = same && taken[i] == first[i] && taken[i].StartPort == uint16(i) && taken[i].IPProtocolID == 6 && bytes.Equal(taken[i].StartAddress, addr4(i))
+			}
+			check(l0, len(c), same)
+		case "proposals":
+			var c message.ProposalContainer
+			for i := 0; i < in.N; i++ {
+				c.BuildProposal(uint8(i+1), 1, cp(in.B))
+			}
+			taken := c
+			first := append([]*message.Proposal(nil), taken...)
+			c.Reset()
+			l0 := len(c)
+			c.BuildProposal(9, 3, cp(in.B))
+			same := len(taken) == in.N
+			for i := range first {
+				same = same && taken[i] == first[i] && taken[i].ProposalNumber == uint8(i+1) && taken[i].ProtocolID == 1 && bytes.Equal(taken[i].SPI, in.B)
+			}
+			check(l0, len(c), same)
+		default:
+			var c message.TransformContainer
+			for i := 0; i < in.N; i++ {
+				c.BuildTransform(1, uint16(i+1), nil, nil, nil)
+			}
+			taken := c
+			first := append([]*message.Transform(nil), taken...)
+			c.Reset()
+			l0 := len(c)
+			c.BuildTransform(3, in.U, nil, nil, nil)
+			same := len(taken) == in.N
+			for i := range first {
+				same = same && taken[i] == first[i] && taken[i].TransformType == 1 && taken[i].TransformID == uint16(i+1)
+			}
+			check(l0, len(c), same)
+		}
+		return nil
+	})
+	if err != nil {
+		return probe.Fail("%s: %v", in.Container, err)
+	}
+	if fail != "" {
+		return probe.Fail("%s container: %s", in.Container, fail)
+	}
+	return probe.OK(true, "reset:"+in.Container)
+})
+
 func TestC19(t *testing.T) {
 	c := probe.NewCtx(t, "C19")
+	for _, k := range c19Containers {
+		for n := 1; n <= 4; n++ {
+			c19Reset.Eval(c, c19ResetIn{Container: k, N: n, B: model.Bytes{1, 2, 3, 4}, U: 77})
+		}
+	}
+	c19Reset.Run(c, t, c.N(300, 2000))
 	c19Build.Run(c, t, c.N(5000, 40000))
 }
